@@ -45,10 +45,10 @@ def run(chk):
     chk.assume('floats are reals: the clause "to rounding for condition numbers up to 1e6" (numerical stability of the 3x3 '
                'inversion) is NOT decided here; a bounded numeric check with random rotations and B of condition <= 1e6 stands in')
     mod = kit.load(MOD)
-    q_elements(chk, mod)
+    chk.section('q_elements', q_elements, mod)
     q_lemmas(chk)
-    ub_and_hkl(chk, mod)
-    split_merge(chk, mod)
+    chk.section('ub_and_hkl', ub_and_hkl, mod)
+    chk.section('split_merge', split_merge, mod)
     bounded_numeric(chk)
 
 
@@ -256,10 +256,19 @@ def _numeric_failures(n, seed, limit=3):
         sv = 10 ** rng.uniform(0, 6)
         P_, _ = np.linalg.qr(rng.normal(size=(3, 3)))
         B = P_ @ np.diag([1.0, np.sqrt(sv), sv]) @ P_.T * 0.1
+        # B in any reciprocal-length unit: the product is compared physically (in 1/angstrom), whatever unit it comes back in
+        b_unit, b_scale = [('1/angstrom', 1.0), ('1/nm', 10.0), ('1/m', 1e10), ('1/pm', 0.01)][i % 4]
         ub = tof.ub_matrix_from_u_and_b(u_matrix=sc.spatial.rotations_from_rotvecs(sc.vector(Rotation.from_matrix(U).as_rotvec(), unit='rad')),
-                                        b_matrix=sc.spatial.linear_transform(value=B, unit='1/angstrom'))
-        e_ub = np.abs(ub.value - U @ B).max() / np.abs(U @ B).max()
+                                        b_matrix=sc.spatial.linear_transform(value=B * b_scale, unit=b_unit))
+        try:
+            ub_per_angstrom = ub.value * sc.scalar(1.0, unit=ub.unit).to(unit='1/angstrom').value
+        except Exception:  # noqa: BLE001 -- not a reciprocal length
+            ub_per_angstrom = np.full((3, 3), np.nan)
+        e_ub = np.abs(ub_per_angstrom - U @ B).max() / np.abs(U @ B).max()
+        if not e_ub <= 1e-12:
+            e_ub = float('inf')
         hkl = tof.hkl_vec_from_Q_vec(Q_vec=qv, ub_matrix=ub, sample_rotation=sc.spatial.linear_transform(value=Rm))
+        hkl = hkl.to(unit='dimensionless') if str(hkl.unit) != 'dimensionless' else hkl
         back = 2 * np.pi * Rm @ (U @ B) @ hkl.value
         e2 = np.linalg.norm(back - qv.value) / max(np.linalg.norm(qv.value), 1e-300)
         el = tof.hkl_elements_from_hkl_vec(hkl_vec=hkl)
